@@ -228,6 +228,26 @@ def mk_or(items):
     return ('or', tuple(sorted(out, key=key)))
 
 
+def anti_unify(alts):
+    """[(guard, term)] -> one term in which the alternatives' single point of difference has become a selection:
+    phi{g: f(x); h: f(y)} is f(phi{g: x; h: y}).  Returns the plain selection when the alternatives differ in more than
+    one place."""
+    t0 = alts[0][1]
+    if all(t == t0 for _, t in alts):
+        return t0
+    if all(isinstance(t, tuple) and len(t) == len(t0) and bool(t) for _, t in alts) and isinstance(t0, tuple) and t0 \
+            and tag(t0) not in ('c', 'phi', 'lv', 'cv', 'p', 'g'):
+        head_is_tag = isinstance(t0[0], str)
+        if not head_is_tag or all(t[0] == t0[0] for _, t in alts):
+            start = 1 if head_is_tag else 0
+            diffs = [i for i in range(start, len(t0)) if any(t[i] != t0[i] for _, t in alts)]
+            if len(diffs) == 1 and all(isinstance(t[diffs[0]], tuple) for _, t in alts):
+                i = diffs[0]
+                inner = anti_unify([(g, t[i]) for g, t in alts])
+                return t0[:i] + (inner,) + t0[i + 1:]
+    return mk_phi(list(alts))
+
+
 def dnf(f, limit: int = 256) -> list:
     """Disjunctive normal form of a guard (already in negation normal form): list of conjunctions (each a formula built
     by mk_and, FALSE ones dropped).  None when it would exceed `limit` conjunctions."""
